@@ -190,6 +190,7 @@ func runC03(c *eng.Ctx) {
 	compactionStreamFollowsTheOutputFile(c)
 	scannerAdvanceIsAllOrNothing(c)
 	downSamplingEmitsEverySlot(c)
+	everyCompactionInputIsRead(c)
 	compactionOutputClaimedUntilInstalled(c)
 
 	// ---- 1/2/3. one atomic install; both input levels ---------------------------------------------------------------------
